@@ -138,8 +138,17 @@ impl Config {
                                         let ip =
                                             it.next().unwrap().parse().map_err(|e| {
                                                 Error::InvalidConfig(format!("{}", e))
-                                            })?; /* TODO: remove unwrap */
-                                        let prefixlen = it.next().unwrap().parse().unwrap();
+                                            })?; /* split always yields a first item */
+                                        let prefixlen = it
+                                            .next()
+                                            .ok_or_else(|| {
+                                                Error::InvalidConfig(format!(
+                                                    "Expected IPv4 prefix, but '{}'",
+                                                    s
+                                                ))
+                                            })?
+                                            .parse()
+                                            .map_err(|e| Error::InvalidConfig(format!("{}", e)))?;
                                         prefix = Some(
                                             erbium_net::Ipv4Subnet::new(ip, prefixlen).map_err(
                                                 |e| Error::InvalidConfig(format!("{}", e)),
